@@ -55,6 +55,15 @@ def call_summary(qname, args):
         return ('bool', v_eq(a[0], a[1]))
     if q == 'std::cmp::PartialEq::ne':
         return ('bool', not v_eq(a[0], a[1]))
+    if q == 'dyn std::any::Any::downcast_ref' or q == 'dyn std::any::Any::downcast_mut':
+        # ('any', type tag, value): the downcast succeeds iff the tag is the requested type (tag 'Self')
+        if a[0][0] != 'any':
+            raise Undecided('downcast of a non-Any value')
+        return ('opt', a[0][2] if a[0][1] == 'Self' else None)
+    if q == 'dyn std::any::Any::is':
+        if a[0][0] != 'any':
+            raise Undecided('is() on a non-Any value')
+        return ('bool', a[0][1] == 'Self')
     if q == 'std::mem::discriminant':
         return ('atom', 'discr:' + (a[0][1] if a[0][0] == 'res' else str(a[0][1] is None)))
     return None
